@@ -20,7 +20,7 @@ RULE = ("(a) is_address_valid() compared with the reference predicate for all 65
         "type) and the master's lease table may change only on address requests and releases. "
         "Non-trivial: the frame reached update(); distinct = (role, level, "
         "type, length, destination class, origin class).")
-RULE += (" Later rounds added: every transmission must be explained by a received frame, the lease table may only change on requests/releases, node address and pipes are preserved, answer-worthy frames followed by frames that must be discarded, fragment pairs with system types, masters with exhausted slots / a table loaded from JSON, relaying nodes, nodes whose multicast level was re-assigned, complete fragment streams of 2..9 fragments, and the clause that whatever the application reads came from a received frame (queued_frames_were_received).")
+RULE += (" Later rounds added: every transmission must be explained by a received frame, the lease table may only change on requests/releases, node address and pipes are preserved, answer-worthy frames followed by frames that must be discarded, fragment pairs with system types, masters with exhausted slots / a table loaded from JSON, relaying nodes, nodes whose multicast level was re-assigned, complete fragment streams of 2..9 fragments, and the clause that whatever the application reads came from a received frame (queued_frames_were_received), a slow-to-handle frame (final-hop relay, failing relay, re-broadcast multicast) followed by a NETWORK_POLL in the same update(), an ID leased twice through different parents and then released from its new and its old address (either order, repeated, lookups in between).")
 REQUIRED = {"predicate": 65537, "update_returns": 8000, "bounded_time": 8000,
             "invalid_dropped": 1500, "transmissions_explained": 8000, "lease_table_explained": 1500,
             "address_preserved": 8000, "queued_frames_were_received": 2000}
@@ -97,6 +97,8 @@ def gen_cases(ctx):
                "burst": rng.choice([1, 1, 2, 3])}
     yield from gen_followed_by_invalid(ctx)
     yield from gen_fragment_pairs(ctx)
+    yield from gen_slow_then_poll(ctx)
+    yield from gen_release_histories(ctx)
     yield from gen_lookups_of_loaded(ctx)
     # systematic: every type x a few lengths, for self-addressed and routed frames, master & node
     for role in ("master3", "net", "meshnm_connected", "router"):
@@ -144,6 +146,59 @@ def gen_followed_by_invalid(ctx):
         for k in range(0, len(frames), 64):
             yield {"part": "frames", "role": role, "level": 0 if role.startswith("master") else 2,
                    "frames": frames[k:k + 64], "seed": 77 + k, "phantom": True, "burst": 2}
+
+
+def gen_slow_then_poll(ctx):
+    """a frame whose handling takes time (the final-hop relay of an ack-typed message with its 2 ms
+    pause and the NETWORK_ACK that follows, a relay to an absent child that fails after its retries,
+    a multicast that a relaying node re-broadcasts) followed IN THE SAME update() by a NETWORK_POLL:
+    the poll is answered after the node's slot delay whatever time the earlier frame took"""
+    for role in ("router", "net", "net_relay", "meshnm_connected"):
+        for level in (1, 2, 3, 4):
+            for phantom in (True, False):
+                frames = []
+                for k, (typ, dcls) in enumerate(((65, "child"), (127, "child"), (100, "descendant"), (5, "child"),
+                                                 (70, "multicast"), (190, "child"), (66, "parentside"))):
+                    for npoll in (1, 2):
+                        frames.append({"to": None, "dcls": dcls, "ocls": "valid", "type": typ, "len": 4 + k, "reserved": 0,
+                                       "id": 300 + 2 * k + npoll, "pipe": 1 + k % 5})
+                        for q in range(npoll):
+                            frames.append({"to": None, "dcls": "multicast", "ocls": "default", "type": 194, "len": 0,
+                                           "reserved": 0, "id": 400 + 4 * k + q, "pipe": 0})
+                        while len(frames) % 3:
+                            frames.append({"raw": "02"})  # (filler: a burst is three frames)
+                yield {"part": "frames", "role": role, "level": level, "frames": frames, "seed": 90 + level,
+                       "phantom": phantom, "burst": 3}
+
+
+def gen_release_histories(ctx):
+    """the same ID is leased an address twice through different parents (no release in between),
+    then MESH_ADDR_RELEASE frames arrive from the new and from the old address in either order,
+    repeated, with lookups of that ID and of both addresses in between: whatever the master keeps
+    about an ID, none of these frames may make update() raise"""
+    for role in ("master0", "master3", "masterloaded"):
+        for vias in ((0o4444, 0o2), (0o2, 0o4444), (0o1, 0o2), (0o2, 0o15), (0o4444, 0o1, 0o2)):
+            for order in ((-1, 0), (0, -1), (0, 0), (-1, -1), (0, -1, 0), (1, 0, -1)):
+                for look in (False, True):
+                    nid = 40 + len(vias) + (order[0] & 3)
+                    frames = []
+                    for v in vias:
+                        frames.append({"to": 0, "dcls": "self", "ocls": "valid", "type": 195, "len": 0, "reserved": nid,
+                                       "id": 600 + len(frames), "pipe": 0 if v == 0o4444 else 3, "fixed_origin": v})
+                    for k in order:
+                        if look:
+                            frames.append({"to": 0, "dcls": "self", "ocls": "valid", "type": 196, "len": 1, "reserved": 0,
+                                           "id": 620 + len(frames), "pipe": 2, "body_hex": "%02x" % nid, "fixed_origin": 0o3})
+                            frames.append({"to": 0, "dcls": "self", "ocls": "valid", "type": 198, "len": 2, "reserved": 0,
+                                           "id": 640 + len(frames), "pipe": 2, "body_hex": "0000", "origin_lease": [nid, k],
+                                           "lookup_own_address": True})
+                        frames.append({"to": 0, "dcls": "self", "ocls": "valid", "type": 197, "len": 0, "reserved": 0,
+                                       "id": 660 + len(frames), "pipe": 4, "origin_lease": [nid, k]})
+                    # ... and the ID asks once more afterwards
+                    frames.append({"to": 0, "dcls": "self", "ocls": "valid", "type": 195, "len": 0, "reserved": nid,
+                                   "id": 690, "pipe": 0, "fixed_origin": 0o4444})
+                    yield {"part": "frames", "role": role, "level": 0, "frames": frames, "seed": 11 + len(vias),
+                           "phantom": True, "burst": 1, "fam": "release-histories"}
 
 
 LOADED = [a for a in net_ref.all_addresses() if a and a != net_ref.DEFAULT_ADDR][:20]
@@ -300,9 +355,14 @@ def run_case(ctx, case):
         rig.close()
 
 
-def build(fr, me, rng):
+def build(fr, me, rng, lease_hist=None):
     if "raw" in fr:
         return bytes.fromhex(fr["raw"]), None
+    if "origin_lease" in fr:
+        # a frame sent from an address the master leased to that ID earlier in this case (k-th lease)
+        hist = (lease_hist or {}).get(fr["origin_lease"][0], [])
+        k = fr["origin_lease"][1]
+        fr = dict(fr, fixed_origin=hist[k] if -len(hist) <= k < len(hist) else 0o5)
     to = fr["to"] if fr["to"] is not None else dest_of(fr["dcls"], me, rng)
     oc = fr["ocls"]
     frm = {"valid": rng.choice([0o2, 0o15, 0o5, 0o342, 0o1]), "default": 0o4444,
@@ -312,6 +372,8 @@ def build(fr, me, rng):
     body = bytes((fr["id"] + i) & 0xFF for i in range(fr["len"]))
     if "body_hex" in fr:
         body = bytes.fromhex(fr["body_hex"])
+    if fr.get("lookup_own_address"):
+        body = bytes([frm & 0xFF, (frm >> 8) & 0xFF])  # "which ID has my address?"
     raw = bytes([frm & 0xFF, (frm >> 8) & 0xFF, to & 0xFF, (to >> 8) & 0xFF, fr["id"] & 0xFF,
                  (fr["id"] >> 8) & 0xFF, fr["type"], fr["reserved"]]) + body
     return raw, (frm, to)
@@ -324,13 +386,14 @@ def _frames(ctx, case, rig, radio, o):
     frames = case["frames"]
     i = 0
     seen_heads = set()
+    lease_hist = {}
     while i < len(frames):
         burst = frames[i:i + case["burst"]]
         i += case["burst"]
         # drain the application's queue first so that acceptance is visible
         if not drain_checked(ctx, case, o, seen_heads, frames[:i]):
             return
-        built = [build(fr, me, rng) for fr in burst]
+        built = [build(fr, me, rng, lease_hist) for fr in burst]
         for raw, _ in built:
             if len(raw) >= 8:
                 hh = net_ref.unpack_header(raw)
@@ -428,6 +491,10 @@ def _frames(ctx, case, rig, radio, o):
                                                      oct(ho["to"]), ho["id"], desc),
                               dict(case, frames=frames[:i], burst=case["burst"]))
                 return
+        if hasattr(o, "dhcp_dict"):
+            for k_id, k_ad in o.dhcp_dict.items():
+                if lease_hist.get(k_id, [None])[-1] != k_ad:
+                    lease_hist.setdefault(k_id, []).append(k_ad)
         if table0 is not None and hasattr(o, "dhcp_dict"):
             ctx.clause("lease_table_explained")
             if dict(o.dhcp_dict) != table0 and not any(hi["type"] in (195, 197) for hi in heads):
